@@ -9,24 +9,27 @@ use tls_parser::*;
 macro_rules! p {
     ($ctx:expr, $r:expr, $f:expr) => {{
         let r = $r;
-        if let Ok((_, v)) = &r {
-            let _ = format!("{:?}", v);
-        }
+        crate::parse_done();
+        // Debug formatting of whatever was returned, value or error (C01)
+        let _ = format!("{:?}", r);
         show::res($ctx, r, $f)
     }};
 }
 /// for value types without Debug
 macro_rules! q {
     ($ctx:expr, $r:expr, $f:expr) => {{
-        show::res($ctx, $r, $f)
+        let r = $r;
+        crate::parse_done();
+        show::res($ctx, r, $f)
     }};
 }
 
 fn ext1(i: &[u8], f: fn(&[u8]) -> IResult<&[u8], TlsExtension>) -> String {
     let ctx = &Ctx::of(i);
     let r = f(i);
+    crate::parse_done();
+    let _ = format!("{:?}", r);
     if let Ok((_, v)) = &r {
-        let _ = format!("{:?}", v);
         let _ = format!("{:?}", TlsExtensionType::from(v));
     }
     show::res(ctx, r, show::ext)
